@@ -191,3 +191,81 @@ Proof. exact NativeSources.hand_models_match_source_lemma. Qed.
 Check c03_hand_models_match_source :
   gen_native_fns = NativeSources.modelled_fn_sources /\ gen_native_actions = NativeSources.modelled_action_sources.
 Print Assumptions c03_hand_models_match_source.
+
+(* ---- fidelity carried through the connection (E2E.v: C03 composed with the chunking theorems of C04 and the session
+   theorem of C05).  sent = the values a server means, each with one of its RFC spellings; wire = the spellings one
+   after the other; expected = one frame per response, holding exactly its bytes and exactly its value. *)
+From TI Require Import Client ClientProofs SessionProofs E2E.
+
+(* every chunking, every not-ready schedule: what the framed read side delivers from a conformant stream is exactly what
+   was sent -- value for value, in order, each frame in its own bytes -- and nothing stays behind *)
+Theorem c03_conformant_stream_delivered : forall s fuel rd fs st',
+  conformant s -> data_only rd -> bytes_of rd = wire s ->
+  fr_drain fuel rf_init rd = (fs, PPending, st', []) ->
+  fs = expected s /\ rf_buf st' = [].
+Proof. exact conformant_stream_delivered_lemma. Qed.
+Check c03_conformant_stream_delivered : forall s fuel rd fs st',
+  conformant s -> data_only rd -> bytes_of rd = wire s ->
+  fr_drain fuel rf_init rd = (fs, PPending, st', []) ->
+  fs = expected s /\ rf_buf st' = [].
+Print Assumptions c03_conformant_stream_delivered.
+
+(* ... also while a further response has only partly arrived (P: any buffer the codec calls incomplete, e.g. a proper
+   prefix of a response): everything complete has been delivered, P waits untouched *)
+Theorem c03_conformant_stream_partial : forall s P fuel rd fs st',
+  conformant s -> decode P = DNone -> data_only rd -> bytes_of rd = wire s ++ P ->
+  fr_drain fuel rf_init rd = (fs, PPending, st', []) ->
+  fs = expected s /\ rf_buf st' = P.
+Proof. exact conformant_stream_partial_lemma. Qed.
+Check c03_conformant_stream_partial : forall s P fuel rd fs st',
+  conformant s -> decode P = DNone -> data_only rd -> bytes_of rd = wire s ++ P ->
+  fr_drain fuel rf_init rd = (fs, PPending, st', []) ->
+  fs = expected s /\ rf_buf st' = P.
+Print Assumptions c03_conformant_stream_partial.
+
+Theorem c03_prefix_of_encoding_incomplete : forall v w P Q, enc_response v w -> w = P ++ Q -> Q <> [] -> decode P = DNone.
+Proof. exact prefix_of_encoding_incomplete. Qed.
+Check c03_prefix_of_encoding_incomplete : forall v w P Q, enc_response v w -> w = P ++ Q -> Q <> [] -> decode P = DNone.
+Print Assumptions c03_prefix_of_encoding_incomplete.
+
+(* n polls by anybody, Pending results in between: never a malformed-response report, and the frames so far are exactly
+   the first responses sent; the rest is still in the buffer or in the transport, byte for byte *)
+Theorem c03_conformant_trace : forall s n rd os st' rd',
+  conformant s -> data_only rd -> bytes_of rd = wire s ->
+  fr_trace n rf_init rd = (os, st', rd') ->
+  no_decode_err os = true /\
+  exists s1 s2, s = s1 ++ s2 /\ frames_of os = expected s1 /\ rf_buf st' ++ bytes_of rd' = wire s2.
+Proof. exact conformant_trace_lemma. Qed.
+Check c03_conformant_trace : forall s n rd os st' rd',
+  conformant s -> data_only rd -> bytes_of rd = wire s ->
+  fr_trace n rf_init rd = (os, st', rd') ->
+  no_decode_err os = true /\
+  exists s1 s2, s = s1 ++ s2 /\ frames_of os = expected s1 /\ rf_buf st' ++ bytes_of rd' = wire s2.
+Print Assumptions c03_conformant_trace.
+
+(* whole sessions of a fresh client (any commands, any number of polls per stream, abandoned streams, any write / flush
+   schedule) over a transport that delivers a conformant stream cut anywhere: all the frames handed to the response
+   streams, in order, are exactly the first responses sent, value for value and byte for byte *)
+Theorem c03_conformant_session : forall s ops c c' started outs,
+  conformant s -> c_rf c = rf_init -> data_only (io_rd (c_io c)) -> bytes_of (io_rd (c_io c)) = wire s ->
+  session ops c = (c', started, outs) ->
+  exists s1 s2, s = s1 ++ s2 /\ frames_of (List.concat outs) = expected s1 /\
+                rf_buf (c_rf c') ++ bytes_of (io_rd (c_io c')) = wire s2.
+Proof. exact conformant_session_lemma. Qed.
+Check c03_conformant_session : forall s ops c c' started outs,
+  conformant s -> c_rf c = rf_init -> data_only (io_rd (c_io c)) -> bytes_of (io_rd (c_io c)) = wire s ->
+  session ops c = (c', started, outs) ->
+  exists s1 s2, s = s1 ++ s2 /\ frames_of (List.concat outs) = expected s1 /\
+                rf_buf (c_rf c') ++ bytes_of (io_rd (c_io c')) = wire s2.
+Print Assumptions c03_conformant_session.
+
+(* non-vacuity: two responses of Examples_RT in six transport events (cuts inside a keyword, a literal header, between CR
+   and LF; one not-ready) *)
+Theorem c03_conformant_session_example : exists s rd os st,
+  conformant s /\ length s = 2%nat /\ data_only rd /\ bytes_of rd = wire s /\ In RNotReady rd /\ (length rd = 6)%nat /\
+  fr_trace 5 rf_init rd = (os, st, []) /\ In PPending os /\ frames_of os = expected s /\ rf_buf st = [].
+Proof. exact conformant_session_example. Qed.
+Check c03_conformant_session_example : exists s rd os st,
+  conformant s /\ length s = 2%nat /\ data_only rd /\ bytes_of rd = wire s /\ In RNotReady rd /\ (length rd = 6)%nat /\
+  fr_trace 5 rf_init rd = (os, st, []) /\ In PPending os /\ frames_of os = expected s /\ rf_buf st = [].
+Print Assumptions c03_conformant_session_example.
